@@ -27,6 +27,7 @@ type runOpts struct {
 	beforeReq func(k int, req *http.Request)
 	afterResp func(k int, req *http.Request, resp *http.Response)
 	onCall    func(idx int, req *http.Request)
+	ops       *[]opInfo // when set: the store operations of the run, in order
 }
 
 // runCase executes one case against the real transport inside a synctest bubble and returns the
@@ -64,7 +65,7 @@ func runCase(t *testing.T, c *Case, opts runOpts) []string {
 		default:
 			inner = memcache.Open()
 		}
-		conn := &recConn{inner: inner, rec: rec, fault: opts.fault}
+		conn := &recConn{inner: inner, rec: rec, fault: opts.fault, ops: opts.ops}
 		if conn.fault == nil && len(c.Faults) > 0 {
 			conn.fault = faultHook(c.Faults, conn.backend)
 		}
